@@ -564,12 +564,13 @@ PROPS = {
         "theorems": [],
         "facts": [],
         "runs": {
-            "quick": [("persist", ["-n", "2500"]), ("walk", ["-profile", "persist", "-n", "3000"])],
+            "quick": [("persist", ["-n", "2500"]), ("walk", ["-profile", "persist", "-n", "3000"]),
+                      ("mcrewgen", ["-profile", "mcrew", "-n", "100"], {"overlay": MCREW_OVERLAY})],
             "thorough": [("persist", ["-n", "30000"]), ("walk", ["-profile", "persist", "-n", "10000"])],
         },
         "analyze": analyze_generic,
         "oracles": ["total"],
-        "probes": ["persistUnobservable", "statePlain", "noPanic"],
+        "probes": ["persistUnobservable", "statePlain", "noPanic", "storeReloadPlain"],
         "rule": ENGINE_RULE + "  Persist runs: histories of 3-5 messages delivered one at a time; the same history is run with the state "
                 "kept in memory, with a JSON write/read of the state at each single boundary, and at every boundary; per-message "
                 "observations must be identical; every reached state is compared with its own JSON round trip type for type.",
